@@ -318,6 +318,25 @@ def check_C19(chk):
                        "non-trivial = programs with at least one message carrying endpoints", False)
     if bins:
         api_stage(chk, "C19", bins, ["default", "memfd", "inprocess"], 900 if thorough else 90, 60)
+        # receiver sets with more traffic pending than the random programs ever queue (bursts of 66..150 messages on a member, then its
+        # sender goes): every build must report all of it and then the closure
+        from . import props_set as PS
+        brng = random.Random(chk.seed + 17)
+        bcases = []
+        for i in range(18 if thorough else 6):
+            m = brng.randint(1, 4)
+            bcases.append({"id": 500000 + i, "plans": [([40] * brng.choice([3, 66, 100, 150]), True) for _ in range(m)], "late": [False] * m,
+                           "mode": "after", "threads": 1, "level": "ipc"})
+        blines = ["id=%d plan=%s mode=after threads=1 eintr=0 level=ipc" % (c["id"], PS.plan_str(c["plans"])) for c in bcases]
+        for fl in ("default", "memfd", "inprocess"):
+            brecs, _, brc, berr = C.run_harness(bins[fl], "rset", blines, shim=False, timeout=300)
+            bby = {r["id"]: r for r in brecs if r.get("kind") == "rset"}
+            for c in bcases:
+                why = PS.rset_oracle({"case": c, "rec": bby.get(c["id"]), "stderr": berr})
+                if why:
+                    chk.failing_input("a receiver set with a burst pending on the %s build (the ideal channel and the other builds deliver everything): %s" % (fl, why),
+                                      {"build": fl, "plan": PS.plan_str(c["plans"])}, key="c19set:%s:%s" % (fl, PS.plan_str(c["plans"])[:120]))
+            chk.coverage.setdefault("set_burst_scenarios", {})[fl] = len(bby)
 
 
 def api_stage(chk, prop, bins, flavours, nprog, nops, seed_off=21, p_poison=0.08):
@@ -512,7 +531,7 @@ def check_C11(chk):
     tmp = os.path.join(C.BUILD, "tmp", "res-%d" % os.getpid())
     os.makedirs(tmp, exist_ok=True)
     names = ["connect_missing", "server_unused", "server_cycle", "connect_after_accept", "shm_cycle", "set_cycle", "send_closed_att",
-             "undecoded_drop", "server_bad_tmpdir", "router_cycle", "ser_fail_att", "connect_long", "server_noshow", "server_bad_first"]
+             "undecoded_drop", "server_bad_tmpdir", "router_cycle", "ser_fail_att", "connect_long", "server_noshow", "server_bad_first", "send_closed_big_att"]
     for fl in ("default", "memfd"):
         recs, trace, rc, err = C.run_harness(bins[fl], "res", ["scen name=%s n=%d" % (s, n) for s in names] + ["inherit"],
                                              env_extra={"TMPDIR": tmp}, timeout=900)
